@@ -1,10 +1,22 @@
 mod c19;
 mod c20;
+mod gate_eval;
+mod selftest;
+mod synth_case;
+mod wellformed;
 
 fn main() {
     let args: Vec<String> = std::env::args().skip(1).collect();
     let id = args.first().cloned().unwrap_or_default();
     vcore::quiet_panics();
+    if id == "probe" {
+        // development aid: vc-synth probe <reproducer.json> — both traces side by side
+        let text = std::fs::read_to_string(&args[1]).expect("read");
+        let v: vcore::Value = serde_json::from_str(&text).expect("json");
+        let p = if v.get("payload").is_some() { v["payload"].clone() } else { v };
+        std::thread::Builder::new().stack_size(64 << 20).spawn(move || c19::probe(&p)).unwrap().join().unwrap();
+        return;
+    }
     let ctx = vcore::Ctx::new(&id, &args[1.min(args.len())..]);
     match id.as_str() {
         "C19" => c19::run(&ctx),
